@@ -172,12 +172,22 @@ Fixpoint seg_loop (t : list ((str * str) * Q)) (thr : Q) (wordsep : str) (prev :
     (if qlt_b thr (dget t (prev, u)) then [wordsep; u] else [u]) ++ seg_loop t thr wordsep u r
   end.
 
+(* since fix b848432 of the in-band separator: the words are built as lists of units ([cur] is the current word,
+   reversed; [acc] the finished words, reversed) and joined by single spaces; no separator string is involved.
+   [seg_loop] above is the former marker list, kept as a specification device (Dibs/Proofs.v). *)
+Fixpoint seg_words (t : list ((str * str) * Q)) (thr : Q) (prev : str) (rest : list str)
+         (cur : list str) (acc : list (list str)) : list (list str) :=
+  match rest with
+  | [] => rev (rev cur :: acc)
+  | u :: r =>
+    if qlt_b thr (dget t (prev, u)) then seg_words t thr u r [u] (rev cur :: acc)
+    else seg_words t thr u r (u :: cur) acc
+  end.
+
 Definition segment_utt (t : list ((str * str) * Q)) (thr : Q) (wordsep : str) (utt : str) : result str :=
   match split_ws (replace_all wordsep [sp] utt) with
   | [] => Raise IndexError
-  | p0 :: rest =>
-    let out := p0 :: seg_loop t thr wordsep p0 rest in
-    Ok (replace_all wordsep [sp] (replace_all [sp] [] (join [sp] out)))
+  | p0 :: rest => Ok (join [sp] (map (@concat char) (seg_words t thr p0 rest [p0] [])))
   end.
 
 Definition segment (test : list str) (s : summary) (k : kind) (thr : Q) (pwb : option Q)
